@@ -488,3 +488,47 @@ func Dump() string {
 	return s
 }
 `
+
+// CfgRealm writes realm-local chain parameters (metered into the realm's storage).
+const CfgPath = "gno.land/r/verif/cfg"
+const CfgSrc = `package cfg
+
+import (
+	"chain/params"
+	"strings"
+)
+
+var Writes int
+
+func SetS(cur realm, k string, n int) int {
+	params.SetString(k, strings.Repeat("v", n))
+	Writes++
+	return Writes
+}
+
+func SetI(cur realm, k string, v int64) int {
+	params.SetInt64(k, v)
+	Writes++
+	return Writes
+}
+
+func SetB(cur realm, k string, n int) int {
+	var b []byte
+	if n > 0 {
+		b = []byte(strings.Repeat("b", n))
+	}
+	params.SetBytes(k, b)
+	Writes++
+	return Writes
+}
+
+func SetL(cur realm, k string, n int) int {
+	l := []string{}
+	for i := 0; i < n; i++ {
+		l = append(l, strings.Repeat("e", i+1))
+	}
+	params.SetStrings(k, l)
+	Writes++
+	return Writes
+}
+`
